@@ -10,6 +10,17 @@ from .terms import C, FALSE, NONE, TRUE, Term, cval, fresh_uid, is_const, mk, sh
 from .exprs import neg
 
 
+def _jump_cond(a: State, b: State) -> Term:
+    """condition under which state `a` (and not `b`) is the one reached, when the two states were separated by one test: `b` (say the state at a
+    `continue`) knows a fact whose negation `a` (the state that ran on) knows.  Otherwise an anonymous condition."""
+    fa = {(c.uid, bool(p_)): c for c, p_ in a.facts}
+    for c, p_ in b.facts:
+        if (c.uid, not bool(p_)) in fa:
+            # b: c == p_ ; a: c == not p_
+            return neg(c) if p_ else c
+    return sym("cont")
+
+
 class _Jump:
     """collector for break / continue states of the innermost loop"""
 
@@ -72,7 +83,7 @@ def stmt(self, s: ast.stmt, st: State) -> Optional[State]:
         rhs = self.ev(s.value, st)
         co = self.obj(st, cur)
         opn = type(s.op).__name__
-        if opn == "Add" and co is not None and co.kind == "list":
+        if opn == "Add" and co is not None and co.kind in ("list", "bytearray"):
             # in-place extend
             items = self.iter_items(rhs, st)
             if co.exact and items is not None:
@@ -639,6 +650,27 @@ def _precise_try(self, s: ast.Try, st: State, tid, base_ctx, classes_per_handler
     return r
 
 
+def _augadd_only_names(stmts) -> set:
+    """names that are bound in `stmts` only by `name += expr`"""
+    aug, other = set(), set()
+    for st_ in stmts:
+        for n in ast.walk(st_):
+            if isinstance(n, ast.AugAssign) and isinstance(n.target, ast.Name) and isinstance(n.op, ast.Add):
+                aug.add(n.target.id)
+            elif isinstance(n, ast.Name) and isinstance(n.ctx, (ast.Store, ast.Del)):
+                other.add(n.id)
+    # the target of an AugAssign is itself a Name in Store context: count how often each name is stored
+    stores = {}
+    augs = {}
+    for st_ in stmts:
+        for n in ast.walk(st_):
+            if isinstance(n, ast.Name) and isinstance(n.ctx, (ast.Store, ast.Del)):
+                stores[n.id] = stores.get(n.id, 0) + 1
+            if isinstance(n, ast.AugAssign) and isinstance(n.target, ast.Name) and isinstance(n.op, ast.Add):
+                augs[n.target.id] = augs.get(n.target.id, 0) + 1
+    return {nm for nm in aug if stores.get(nm, 0) == augs.get(nm, 0)}
+
+
 def _assigned_names(stmts) -> List[str]:
     out = []
 
@@ -753,7 +785,7 @@ def st_for(self, s: ast.For, st: State) -> Optional[State]:
                 self._jumps.pop()
             broke.extend(j.breaks)
             for cs in j.continues:
-                cur = cs if cur is None else self.merge(sym("cont"), cur, cs)
+                cur = cs if cur is None else self.merge(_jump_cond(cur, cs), cur, cs)
         if cur is not None and s.orelse:
             cur = self.block(s.orelse, cur)
         for b in broke:
@@ -799,7 +831,7 @@ def st_while(self, s: ast.While, st: State) -> Optional[State]:
             self._jumps.pop()
         broke.extend(j.breaks)
         for cs in j.continues:
-            cur = cs if cur is None else self.merge(sym("cont"), cur, cs)
+            cur = cs if cur is None else self.merge(_jump_cond(cur, cs), cur, cs)
         if cur is None:
             break
     if cur is not None and s.orelse:
@@ -826,9 +858,20 @@ def symbolic_loop(self, s, st: State, kind: str, itv: Optional[Term]) -> Optiona
     assigned = _assigned_names(s.body) + (_assigned_names([ast.Assign(targets=[s.target], value=ast.Constant(value=None))]) if kind == "for" else [])
     env = st.envs[-1]
     fr = self.frame
+    # names whose only "assignment" in the body is `name += ...` on a list / bytearray keep pointing to the same (mutated) object
+    inplace_only = _augadd_only_names(s.body)
     # loop-carried variables -> loop symbols
-    for nm in assigned:
+    kept_inplace = []
+    for nm in list(assigned):
         if nm in env:
+            if nm in inplace_only:
+                o_ = self.obj(st, env[nm])
+                if o_ is not None and o_.kind in ("list", "bytearray"):
+                    _weaken(o_)
+                    o_.version += 1
+                    assigned.remove(nm)
+                    kept_inplace.append(nm)
+                    continue
             lr.init[nm] = env[nm]
             env[nm] = mk("loopvar", lid, nm)
         else:
@@ -883,7 +926,7 @@ def symbolic_loop(self, s, st: State, kind: str, itv: Optional[Term]) -> Optiona
     backs = ([end] if end is not None else []) + j.continues
     back = None
     for b in backs:
-        back = b if back is None else self.merge(sym("cont"), back, b)
+        back = b if back is None else self.merge(_jump_cond(back, b), back, b)
     if back is not None:
         for nm in list(lr.init.keys()):
             if "." in nm:
